@@ -14,6 +14,10 @@ theorem if_emit (c : Prop) [Decidable c] (m : Mgr) (a b : List Event) :
     (if c then m else m.emit a).emit b = m.emit ((if c then [] else a) ++ b) := by
   split <;> simp [emit_emit, Mgr.emit]
 
+theorem if_emit' (c : Bool) (m : Mgr) (a b : List Event) :
+    (if (!c) = true then m.emit a else m).emit b = m.emit ((if c = true then [] else a) ++ b) := by
+  cases c <;> simp [emit_emit, Mgr.emit]
+
 theorem getBox_setBox_emit (m : Mgr) (evs : List Event) (k : Nat) (b : Box) (k' : Nat) :
     ((m.emit evs).setBox k b).getBox k' = (m.setBox k b).getBox k' := by
   unfold Mgr.setBox
@@ -190,10 +194,19 @@ theorem shape_tooLong :
   decide
 
 /-- The common difference branch under the good orders, computed. -/
-theorem diffBranch_eq (O : Orders) (hO : GoodOrders O) (slice : Bool) (msgs enc own : List Entry) (p q : Int) (m : Mgr) :
+theorem guardHolds_all (msgs enc own : List Entry) :
+    guardHolds [0, 1, 2] msgs enc own = !(msgs ++ enc ++ own).isEmpty := by
+  cases msgs <;> cases enc <;> cases own <;> simp [guardHolds]
+
+theorem guardHolds_ch (msgs own : List Entry) :
+    guardHolds [0, 2] msgs [] own = !(msgs ++ own).isEmpty := by
+  cases msgs <;> cases own <;> simp [guardHolds]
+
+theorem diffBranch_eq (O : Orders) (hO : GoodOrders O) (slice : Bool) (msgs enc own rest : List Entry) (p q : Int) (m : Mgr) :
     (if slice then O.diffSlice else O.diffDifference).foldl
-        (Mgr.diffBranchStep O (if slice then O.diffSlice else O.diffDifference) msgs enc own [] p q) m =
-      (((m.emit ((if (msgs ++ enc ++ own).isEmpty then [] else [Event.dispatch ((msgs ++ enc ++ own).map (·.id))])
+        (Mgr.diffBranchStep O (if slice then O.diffSlice else O.diffDifference)
+          (if slice then O.sliceGuard else O.diffGuard) msgs enc own rest p q) m =
+      ((((if rest.isEmpty then m else m.applyCombined O rest).emit ((if (msgs ++ enc ++ own).isEmpty then [] else [Event.dispatch ((msgs ++ enc ++ own).map (·.id))])
             ++ [.storeState p q])).seqOpQuiet O 0
           (.seq diffShape p ((msgs ++ own).filter (·.seqKey == some 0)))).seqOpQuiet O 1
           (.seq diffShape q ((enc ++ own).filter (·.seqKey == some 1)))) := by
@@ -203,21 +216,14 @@ theorem diffBranch_eq (O : Orders) (hO : GoodOrders O) (slice : Bool) (msgs enc 
   cases slice with
   | false =>
     simp only [Bool.false_eq_true, if_false]
-    rw [hO.diffDifference]
-    simp only [List.foldl, Mgr.diffBranchStep, List.isEmpty_nil, if_true, Mgr.diffSetState, hfold, if_emit]
+    rw [hO.diffDifference, hO.diffGuard]
+    simp only [List.foldl, Mgr.diffBranchStep, Mgr.diffSetState, hfold, guardHolds_all, if_emit']
     rw [hO.diffSetState, shape_pts_diff.1, shape_pts_diff.2.2.1]
   | true =>
     simp only [if_true]
-    rw [hO.diffSlice]
-    simp only [List.foldl, Mgr.diffBranchStep, List.isEmpty_nil, if_true, Mgr.diffSetState, hfold, if_emit]
+    rw [hO.diffSlice, hO.sliceGuard]
+    simp only [List.foldl, Mgr.diffBranchStep, Mgr.diffSetState, hfold, guardHolds_all, if_emit']
     rw [hO.diffSetState, shape_pts_diff.2.1, shape_pts_diff.2.2.2]
-
-theorem commonDiff_fst (w : World) (pts qts : Int) :
-    (w.commonDiff pts qts).1 = w ∨ (w.commonDiff pts qts).1 = { w with tooLongNext := false } := by
-  unfold World.commonDiff
-  split
-  · right; rfl
-  · left; simp only; split <;> rfl
 
 theorem minv_world {O log keys org start m} (h : MInv O log keys org start m) (w : World)
     (hl : w.log = m.w.log) (hp : w.p0 = m.w.p0) (hq : w.q0 = m.w.q0) (hc : w.c0 = m.w.c0) :
@@ -250,19 +256,17 @@ theorem callEvs_diffShape (x : Int) (ids : List Nat) :
     callEvs x ids diffShape = (if ids.isEmpty then [] else [.dispatch ids]) ++ [.store x] := by
   simp [callEvs, diffShape]
 
-/-- One common difference answer of kind `diff`, applied. -/
-theorem minv_diffBranch {O log keys org start m} (hO : GoodOrders O) (hS : Scn log keys org)
+/-- The joint step of a common difference (dispatch, `SetState`, both boxes), applied to the state
+the request was made from (after re-routing foreign updates). -/
+theorem minv_diffJoint {O log keys org start m} (hO : GoodOrders O) (hS : Scn log keys org)
     (h : MInv O log keys org start m) (w0 : World) (hw0l : w0.log = log) (hw0p : w0.p0 = org 0) (hw0q : w0.q0 = org 1)
     (msgs enc others : List Entry) (p q : Int) (slice : Bool)
     (hans : (w0.commonDiff m.pts.state m.qts.state).2 = .diff msgs enc others p q slice) :
     MInv O log keys org start
-      ((if slice then O.diffSlice else O.diffDifference).foldl
-        (Mgr.diffBranchStep O (if slice then O.diffSlice else O.diffDifference) msgs enc
-          (if O.ownDirect then others.filter ownCommon else [])
-          (if O.ownDirect then others.filter (fun e => !ownCommon e) else others) p q) m) := by
-  rw [hO.ownDirect]
-  simp only [if_true]
-  rw [commonDiff_others_own w0 _ _ msgs enc others p q slice hans, diffBranch_eq O hO]
+      ((((m.emit ((if (msgs ++ enc ++ others.filter ownCommon).isEmpty then []
+            else [Event.dispatch ((msgs ++ enc ++ others.filter ownCommon).map (·.id))]) ++ [.storeState p q])).seqOpQuiet O 0
+          (.seq diffShape p ((msgs ++ others.filter ownCommon).filter (·.seqKey == some 0)))).seqOpQuiet O 1
+          (.seq diffShape q ((enc ++ others.filter ownCommon).filter (·.seqKey == some 1))))) := by
   obtain ⟨_, hm, hen, ho, _, _, _⟩ := commonDiff_diff w0 _ _ msgs enc others p q slice hans
   have hs0 := hS.sorted 0 hS.k0
   have hs1 := hS.sorted 1 hS.k1
@@ -287,13 +291,13 @@ theorem minv_diffBranch {O log keys org start m} (hO : GoodOrders O) (hS : Scn l
     exact ⟨hsub e h1, kind_seqKey1 e (Or.inl (by simpa using h2))⟩
   have hown : ∀ e ∈ others.filter ownCommon, e ∈ log ∧ (e.seqKey = some 0 ∨ e.seqKey = some 1) := by
     intro e he
-    obtain ⟨h1, _⟩ := List.mem_filter.1 he
-    rw [ho] at h1
-    obtain ⟨h2, h3⟩ := List.mem_filter.1 h1
-    refine ⟨hsub e h2, ?_⟩
-    simp only [Bool.or_eq_true, beq_iff_eq] at h3
-    rcases h3 with h3 | h3
+    obtain ⟨h1, h2⟩ := List.mem_filter.1 he
+    refine ⟨by rw [← hw0l]; exact commonDiff_others_sub w0 _ _ msgs enc others p q slice hans e h1, ?_⟩
+    simp only [ownCommon, Bool.or_eq_true, beq_iff_eq] at h2
+    rcases h2 with ((h3 | h3) | h3) | h3
+    · exact Or.inl (kind_seqKey0 e (Or.inl h3))
     · exact Or.inl (kind_seqKey0 e (Or.inr h3))
+    · exact Or.inr (kind_seqKey1 e (Or.inl h3))
     · exact Or.inr (kind_seqKey1 e (Or.inr h3))
   have hbatch : ∀ e ∈ msgs ++ enc ++ others.filter ownCommon, e ∈ log := by
     intro e he
@@ -383,5 +387,32 @@ theorem minv_diffBranch {O log keys org start m} (hO : GoodOrders O) (hS : Scn l
   · intro c hc; rw [seqOpQuiet_w, seqOpQuiet_w]; exact h.c0 c hc
   · rw [seqOpQuiet_queues, seqOpQuiet_queues]; exact h.queues
   · rw [seqOpQuiet_internal, seqOpQuiet_internal]; exact h.internal
+
+/-- One common difference answer of kind `diff`, applied: foreign other-updates are re-routed
+(they do not touch the pts/qts boxes), then the joint step. -/
+theorem minv_diffBranch {O log keys org start m} (hO : GoodOrders O) (hS : Scn log keys org)
+    (h : MInv O log keys org start m) (w0 : World) (hw0l : w0.log = log) (hw0p : w0.p0 = org 0) (hw0q : w0.q0 = org 1)
+    (msgs enc others : List Entry) (p q : Int) (slice : Bool)
+    (hans : (w0.commonDiff m.pts.state m.qts.state).2 = .diff msgs enc others p q slice) :
+    MInv O log keys org start
+      ((if slice then O.diffSlice else O.diffDifference).foldl
+        (Mgr.diffBranchStep O (if slice then O.diffSlice else O.diffDifference)
+          (if slice then O.sliceGuard else O.diffGuard) msgs enc
+          (if O.ownDirect then others.filter ownCommon else [])
+          (if O.ownDirect then others.filter (fun e => !ownCommon e) else others) p q) m) := by
+  rw [hO.ownDirect]
+  simp only [if_true]
+  rw [diffBranch_eq O hO]
+  have hrest : ∀ e ∈ others.filter (fun e => !ownCommon e), e ∈ log ∧ ownCommon e = false := by
+    intro e he
+    obtain ⟨h1, h2⟩ := List.mem_filter.1 he
+    exact ⟨by rw [← hw0l]; exact commonDiff_others_sub w0 _ _ msgs enc others p q slice hans e h1, by simpa using h2⟩
+  by_cases hre : (others.filter (fun e => !ownCommon e)).isEmpty = true
+  · rw [if_pos hre]
+    exact minv_diffJoint hO hS h w0 hw0l hw0p hw0q msgs enc others p q slice hans
+  · rw [if_neg hre]
+    have h' := minv_applyCombined hO hS h _ (fun e he => (hrest e he).1)
+    have hb := applyCombined_common_boxes O m _ (fun e he => (hrest e he).2)
+    exact minv_diffJoint hO hS h' w0 hw0l hw0p hw0q msgs enc others p q slice (by rw [hb.1, hb.2]; exact hans)
 
 end TdModel.C02Core
